@@ -481,7 +481,12 @@ def ledger_columns(ctx, mon):
         jobs.append(led)
     idx = 0
     for li, led in enumerate(jobs):
-        conn = engine.connection(ledger=led.loaded)
+        loaded = led.loaded
+        if li % 2 == 1:
+            # directives built in Python (as plug-ins do): postings and directives without metadata, costs without dates
+            from .c11 import constructed_entries
+            loaded = (constructed_entries(rng, loaded[0]), loaded[1], loaded[2])
+        conn = engine.connection(ledger=loaded)
         for tname_, table in sorted(conn.tables.items()):
             if not tname_:
                 continue
